@@ -399,7 +399,22 @@ func propC20HTTP(t *rapid.T) {
 			if concurrent {
 				bw.onWrite = func() { al.SetLevel(newLvl) }
 			}
-			al.ServeHTTP(bw, req)
+			if aborts := rapid.IntRange(0, 2).Draw(t, "writerAbortsHandler") == 0; aborts {
+				// the server's own way of giving up on a client: the ResponseWriter panics with ErrAbortHandler, which
+				// net/http (here: the harness) recovers. Later requests are answered as if nothing had happened.
+				concurrent = false
+				bw.onWrite = func() { panic(http.ErrAbortHandler) }
+				func() {
+					defer func() {
+						if p := recover(); p != nil && p != http.ErrAbortHandler {
+							panic(p)
+						}
+					}()
+					al.ServeHTTP(bw, req)
+				}()
+			} else {
+				al.ServeHTTP(bw, req)
+			}
 			got := al.Level()
 			hist = append(hist, fmt.Sprintf("%s %s [%s] %q -> (response write fails)", r.Method, r.Target, r.CType, clipS(r.Body)))
 			failB := func(f string, a ...any) {
